@@ -20,7 +20,7 @@ implementation's `load`/`hour` arrays.
 Glue streams (every tier): call-history sequences of HybridLoad objects with different load years;
 real GHE objects (GHE.__init__, start months 1/2/4/7/12, leap load years with load on 29 Feb and
 31 Dec) inspected before and after simulate(HYBRID)/size — arrays bitwise unchanged, C06 and the C08
-axis predicate still hold; real design searches (DesignNearSquare / DesignRectangle) with explicit
+axis predicate still hold; real design searches (all six design classes, BOREHOLE and SYSTEM flow) with explicit
 load_years — the returned GHE's hybrid load carries the requested years and the input's monthly energy.
 """
 from __future__ import annotations
@@ -168,15 +168,8 @@ def ghe_history_stream(ctx, phys, n):
     """The hybrid load as held by a real GHE (built through GHE.__init__, incl. leap load years with
     non-zero load on 29 February and 31 December, and start months other than January), before and
     after simulate(HYBRID) / size: the arrays must stay bitwise the same and keep satisfying C06/C08."""
-    rng = ctx.rng
-    jobs = []
-    fixed = [(4, 27, [2019]), (1, 24, [2020]), (1, 12, [2019]), (2, 13, [2019]), (7, 30, [2021]), (12, 36, [2019]), (1, 13, [2020]), (4, 15, [2020])]
-    for k in range(n):
-        start, end, years = fixed[k] if k < len(fixed) else (rng.choice([1, 2, 4, 7, 12]), 0, [rng.choice([2019, 2020, 2021])])
-        if k >= len(fixed):
-            end = start + rng.choice([0, 5, 11, 12, 23, 26])
-        jobs.append({"phys": phys, "seed": rng.randrange(1 << 30), "start": start, "end": end, "years": years,
-                     "hours": 8784 if years[0] % 4 == 0 else 8760})
+    jobs = (H.ghe_history_jobs(ctx.rng, n, phys, "wave") + H.ghe_history_jobs(ctx.rng, max(2, n // 4), phys, "peaky")
+            + H.ghe_history_jobs(ctx.rng, max(2, n // 4), phys, "end_plateau"))
     outs = core.pool_map(H.run_ghe_history, jobs)
     for a, o in zip(jobs, outs):
         label0 = f"GHE(start_month={a['start']}, end_month={a['end']}, load_years={a['years']}, {a['hours']}-hour profile)"
@@ -187,7 +180,7 @@ def ghe_history_stream(ctx, phys, n):
             ctx.case(("ghe-history", a["start"], a["end"], a["years"][0], a["seed"]), False)
             ctx.finding("ghe-history-raise", f"{label0} raised {o['raise']}", replay)
             continue
-        raw = H.wave_profile(a["seed"], a["hours"])
+        raw = H.profile_of(a)
         ms = H.month_sums(raw, a["years"][0])
         first = o["steps"][0][1]
         for k, (name, snap) in enumerate(o["steps"]):
@@ -210,19 +203,7 @@ def design_search_stream(ctx, phys, n):
     """Real design searches (cheap lots) through DesignNearSquare / DesignRectangle with explicit
     load_years: the hybrid load of the RETURNED GHE must carry the requested years and the input's
     energy month by month."""
-    rng = ctx.rng
-    base = [
-        {"design": "NEARSQUARE", "years": [2018, 2019], "hours": 8760, "months": 24, "second_year_factor": 0.5},
-        {"design": "RECTANGLE", "years": [2020], "hours": 8784, "months": 24},
-        {"design": "NEARSQUARE", "years": [2020], "hours": 8784, "months": 13},
-        {"design": "RECTANGLE", "years": [2021, 2022], "hours": 8760, "months": 24, "second_year_factor": 1.7},
-        {"design": "NEARSQUARE", "years": [2019], "hours": 8760, "months": 12},
-    ]
-    jobs = []
-    for k in range(n):
-        j = dict(base[k % len(base)])
-        j.update(phys=phys, seed=rng.randrange(1 << 30))
-        jobs.append(j)
+    jobs = H.design_search_jobs(ctx.rng, n, phys, "peaky")
     outs = core.pool_map(H.run_design_search, jobs)
     for a, o in zip(jobs, outs):
         label = f"{a['design']} design search, load_years={a['years']}, {a['months']} months: hybrid load of the returned GHE"
@@ -235,14 +216,21 @@ def design_search_stream(ctx, phys, n):
         ctx.case(("design-search", a["design"], tuple(a["years"]), a["seed"]), True,
                  {"design_search": a["design"], "years": a["years"], "boreholes": o["n_boreholes"]} if len(ctx.samples) < 6 else None)
         snap = o["returned"]
-        if snap["years"] != list(a["years"]):
-            ctx.finding("design-search-years", f"{label}: hybrid_load.years = {snap['years']} instead of the requested {a['years']}", replay)
-        raw = H.wave_profile(a["seed"], a["hours"], a.get("second_year_factor"))
+        raw = H.profile_of(a)
         ny = len(a["years"])
         ms = H.month_sums(raw, a["years"] if ny > 1 else a["years"][0], 12 * ny)
-        # judge the sequence against the REQUESTED calendar and the input, whatever the object says about itself
-        if len(snap["monthly"]) < 12 * ny:
-            snap = dict(snap, monthly=(snap["monthly"] * ny)[:12 * ny])
+        if snap["years"] != list(a["years"]):
+            # one finding for the dropped calendar, with its consequence for this property: the sequence
+            # judged against the REQUESTED calendar and the input
+            snap2 = dict(snap, monthly=(snap["monthly"] * ny)[:12 * ny])
+            _, fails = classify_arrays(snap2["load"], snap2["hour"], ms, H.month_table(snap2["monthly"]), 1, a["months"],
+                                       year=a["years"] if ny > 1 else a["years"][0])
+            f0 = next((f for f in fails if f[1] is not None), None)
+            cons = (f"; e.g. month {f0[1]} integrates to {float(f0[2]):.6f} kWh, the input's net load is {float(f0[3]):.6f} kWh ({len(fails)} month(s) off)"
+                    if f0 else ("; " + str(fails[0][4]) if fails else ""))
+            ctx.finding("design-search-load-years-dropped:" + a["design"],
+                        f"{label}: hybrid_load.years = {snap['years']} instead of the requested {a['years']}{cons}", replay)
+            continue
         ok, _ = _object_predicates(ctx, label, snap, ms, 1, a["months"], a["years"], replay, "design-search-")
         ctx.count("design-search:months-conserved", ok)
 
@@ -336,7 +324,7 @@ def run(ctx: core.Ctx):
 
     # ------------------------------------------------------------------ the glue: GHE.__init__/simulate/size and design searches
     ghe_history_stream(ctx, physs[0], 8 if quick else 40)
-    design_search_stream(ctx, physs[0], 5 if quick else 20)
+    design_search_stream(ctx, physs[0], 7 if quick else 27)
 
     # ------------------------------------------------------------------ arbitrary monthly arrays
     arr = H.explore_process_only(ctx, 300 if quick else 6000)
